@@ -72,6 +72,12 @@ CHECKS.update({
  "C15": dict(cat="fault_enumeration", tech="property-based structural fault injection (proptest + exhaustive single-alteration enumeration) on serialised proofs and companion data; optional libFuzzer target (harness/fuzz) over the same oracle",
    text="Honest bundles of nine configurations (uni/batch/circuit-prover proofs; BabyBear, KoalaBear D4/D5, Goldilocks D2; preprocessed, lookups, ZK, non-primitive tables, multi-arity FRI) are serialised to JSON; the schema (variable-length arrays, count leaves, options) is probed from the deserialiser; EVERY array x {truncate, extend, empty}, EVERY option x toggle and EVERY count leaf x 21 edits is applied once (7983 cases), plus 8000 (thorough 200000) random 1-2 alteration combinations. Oracle: the pipeline allocate/verify_*_circuit/build/pack/set inputs/run never panics, never returns Ok where the native verifier rejects, and length changes of shape-validated vectors are rejected at build with InvalidProofShape.",
    note="Size-like counts are clamped to avoid OOM/abort (the unclamped region is a listed finding). Listed findings are matched per (panic site, message class, leaf class). Native panic means no verdict for the weaker-circuit oracle.", ref="DESIGN.md §3 C15, §7", engine="E3"),
+ "C01": dict(cat="exploration", tech="differential property testing (proptest + exhaustive leaf enumeration) with JSON-path single-leaf alterations and bad-trace proofs: native uni/batch STARK verifier vs the verifier circuit's run verdict",
+   text="17 configurations (uni-STARK, direct batch-STARK, ZK/hiding PCS incl. salted hiding MMCS, circuit-prover batch proofs; BabyBear D4, KoalaBear D4/D5, Goldilocks D2, arity-4 MMCS) x generated FRI parameters, AIRs (public values, preprocessed columns, degrees 2-4, periodic columns, no-next-row) and heights: the honest proof must be accepted by both verifiers; each of 1-12 single-leaf alterations (field element, digest word, index, public value, commitment, common data) must be judged identically by the native verifier and by the circuit (built from the altered bundle, MMCS on); a third of the cases add a proof made by the release prover from a trace with one altered cell (the only rejected proofs on which the quotient connect / LogUp terminal sum is the sole failing check). Every numeric leaf of 29 small proofs is enumerated (12789 leaves). Thorough: 160 proofs with all 141228 leaves at two values each.",
+   note="Trusted: p3-uni-stark / p3-batch-stark native verifiers. Deterministic PoW grinding wrapper makes replays exact. Statement metadata of BatchStarkProof is not altered (C16's subject). Two completeness findings listed (periodic columns; AIRs that never read the next row in the uni circuit).", ref="DESIGN.md §3 C01, §7", engine="E3+E4"),
+ "C17": dict(cat="exploration", tech="model-based property testing (proptest) over call histories of the recursion API: generated sequences of next-layer / aggregation / parameter-change steps with cache disciplines, model = statement carried by each output and circuit digest carried by each cache; native verification of every layer output as oracle",
+   text="Histories of up to 3 (thorough 5) proving steps over the unified recursion API (prove_next_layer, prove_aggregation_layer) on KoalaBear/BabyBear D4: left/right inputs are uni-STARK or batch-STARK statements or earlier outputs, valid or invalid; each step uses no cache, a fresh cache or a cache reused from any earlier call; parameter changes (table packing, constraint profile, FRI arity/queries, PoW bits) between steps. After every step: valid inputs with no/fresh/same-circuit cache must give Ok and an output that verifies natively (and agree with the uncached call); invalid inputs must give Err under every cache discipline; a cache prepared for a different circuit must give Err or a verifying output, never a non-verifying output or a panic; outputs chain into later steps. 800 generated + 60 engineered histories per quick run.",
+   note="The model's circuit digest is computed from the full op list, not from the repo's four fingerprint counters. Two cache-handling findings listed (next-layer cache carries no fingerprint; aggregation fingerprint does not identify the circuit). Quick tier is 1000+ CPU-seconds.", ref="DESIGN.md §3 C17, §7", engine="E5"),
 })
 
 NOT_YET = {}
